@@ -30,6 +30,7 @@ type OpOptions struct {
 	NodeRoot             bool // node(id:) as a client root field
 	RootTypename         bool
 	FragReuse            bool // one named fragment spread at two places
+	UnevenIDs            bool // every member of an abstract type is selected, but `id` only in some of the fragments
 	UnionPartial         bool // union selections that leave a member type without a selected id (findings C01-b/c)
 	HelperDirectives     bool // @skip/@include on a client-selected id/__typename (finding C01-l)
 	HelperNextToFragment bool // client selects id/__typename at a level that also uses fragments (finding C01-k)
@@ -155,7 +156,11 @@ func (g *opGen) selFor(d *ast.Definition, depth int) string {
 			}
 			inner := g.selFor(m, depth)
 			if !g.opt.UnionPartial && m.Fields.ForName("id") != nil && !hasPlainID(inner) {
-				inner = "id " + inner
+				if g.opt.UnevenIDs && g.rng.Intn(2) == 0 {
+					g.feat["uneven_ids"] = true
+				} else {
+					inner = "id " + inner
+				}
 			}
 			parts = append(parts, "... on "+m.Name+" { "+inner+" }")
 			g.feat["abstract"] = true
@@ -417,4 +422,80 @@ func MultiNodeRootOperation(rng *rand.Rand, schema *ast.Schema, opt OpOptions) (
 	a, b := ids[rng.Intn(len(ids))], ids[rng.Intn(len(ids))]
 	q := fmt.Sprintf("{ a: node(id: %q) { ... on %s { %s } } b: node(id: %q) { ... on %s { id } } }", a, t, strings.Join(fields, " "), b, t)
 	return GenOp{Query: q, Kind: "query", Features: []string{"multi_node_root"}}, true
+}
+
+// SharedAbstractOperation selects one root field twice (two aliases, hence the same entities at two places of
+// the result) and below it a field of an abstract type whose members are all selected, `id` only in the first
+// member's fragment and __typename nowhere: the places share de-duplicated child requests, and the helper
+// fields to remove differ from member to member.
+func SharedAbstractOperation(rng *rand.Rand, schema *ast.Schema, opt OpOptions) (GenOp, bool) {
+	if schema.Query == nil {
+		return GenOp{}, false
+	}
+	type cand struct {
+		root string
+		path []string
+		abs  *ast.Definition
+	}
+	var cands []cand
+	var under func(root string, path []string, td *ast.Definition, depth int)
+	under = func(root string, path []string, td *ast.Definition, depth int) {
+		for _, f := range td.Fields {
+			ft := schema.Types[f.Type.Name()]
+			if ft == nil || strings.HasPrefix(f.Name, "__") || len(f.Arguments) > 0 {
+				continue
+			}
+			p := append(append([]string{}, path...), f.Name)
+			if (ft.Kind == ast.Union || ft.Kind == ast.Interface) && ft.Name != "Node" {
+				cands = append(cands, cand{root, p, ft})
+			} else if ft.Kind == ast.Object && depth > 0 {
+				under(root, p, ft, depth-1)
+			}
+		}
+	}
+	for _, rf := range schema.Query.Fields {
+		td := schema.Types[rf.Type.Name()]
+		if strings.HasPrefix(rf.Name, "__") || rf.Name == "node" || td == nil || td.Kind != ast.Object || len(rf.Arguments) > 0 {
+			continue
+		}
+		under(rf.Name, nil, td, 1)
+	}
+	if len(cands) == 0 {
+		return GenOp{}, false
+	}
+	c := cands[rng.Intn(len(cands))]
+	members := schema.GetPossibleTypes(c.abs)
+	sort.Slice(members, func(i, j int) bool { return members[i].Name < members[j].Name })
+	if len(members) < 2 {
+		return GenOp{}, false
+	}
+	first := rng.Intn(len(members))
+	var frs []string
+	for i, m := range members {
+		var fs []string
+		for _, f := range m.Fields {
+			td := schema.Types[f.Type.Name()]
+			if f.Name == "id" || strings.HasPrefix(f.Name, "__") || isComposite(td) || len(f.Arguments) > 0 {
+				continue
+			}
+			fs = append(fs, f.Name)
+		}
+		rng.Shuffle(len(fs), func(a, b int) { fs[a], fs[b] = fs[b], fs[a] })
+		if len(fs) > 2 {
+			fs = fs[:2]
+		}
+		if i == first && m.Fields.ForName("id") != nil {
+			fs = append([]string{"id"}, fs...)
+		}
+		if len(fs) == 0 {
+			return GenOp{}, false
+		}
+		frs = append(frs, "... on "+m.Name+" { "+strings.Join(fs, " ")+" }")
+	}
+	sel := strings.Join(frs, " ")
+	for i := len(c.path) - 1; i >= 0; i-- {
+		sel = c.path[i] + " { " + sel + " }"
+	}
+	q := fmt.Sprintf("{ a: %s { %s } b: %s { %s } }", c.root, sel, c.root, sel)
+	return GenOp{Query: q, Kind: "query", Features: []string{"shared_abstract"}}, true
 }
